@@ -204,6 +204,12 @@ class C09(PropBase):
 
     def mk_case(self, rng, alg, kind, audit=True, uuid_case="lower", missing=None, dup=None, flt=None, selectors="some"):
         cfg = {"audit": audit, "hash": alg}
+        # the audit switch may come from the file or from the command line (overlap); the algorithm always from the file
+        r = rng.random()
+        if r < 0.25:
+            cfg = {"audit": not audit, "ov_audit": audit, "hash": alg}
+        elif r < 0.35:
+            cfg = {"audit": audit, "ov_audit": audit, "hash": alg}
         n = rng.choice([1, 2, 3, 4, 5, 6, 8, 12]) if dup is None else rng.choice([2, 3, 4, 5, 6, 8])
         if dup == "many":
             n = rng.choice([20, 22, 26])     # >= 10 duplicated UUIDs: the other branch of the error message
@@ -385,7 +391,7 @@ class C09(PropBase):
             self.remember(case)
             return None
         txns = case["txns"]
-        audit = bool(case["cfg"].get("audit"))
+        audit = bool(case["cfg"].get("ov_audit", case["cfg"].get("audit")))
         if alg not in ALGOS:
             return None
         if r != "OK":
@@ -501,7 +507,7 @@ class C09(PropBase):
     def nontrivial(self, case, impl):
         if case["op"] == "hash":
             return True
-        if not case["cfg"].get("audit"):
+        if not case["cfg"].get("ov_audit", case["cfg"].get("audit")):
             return False
         return impl.get("r") in ("OK", "ERR")
 
